@@ -195,6 +195,28 @@ def hostile_doc(draw):
             if k in seen or not k:
                 op["opid"] = f"{op['opid']} op{i}"
             seen.add(names.norm(op["opid"]))
+    # inline schemas of an operation derive their class names from the operation's name (+ parameter name, "body", "response<status>",
+    # or a title): the same coincidence rule as for components applies to them
+    for op in ir["ops"]:
+        if op["opid"] is None:
+            continue
+        ob = names.norm(op["opid"])
+        for p in op["params"]:
+            if not _claim(p["schema"], ob + names.norm(p["name"]), ob):
+                p["schema"] = {"k": "str"}
+                n_excl[0] += 1
+        if op.get("body"):
+            multi = len(op["body"]["content"]) > 1
+            for c in op["body"]["content"]:
+                suffix = {"application/json": "jsonbody", "multipart/form-data": "filesbody", "application/x-www-form-urlencoded": "databody"}.get(c[0], "body") if multi else "body"
+                if c[1].get("k") in ("object", "enum", "array", "union") and not _claim(c[1], ob + suffix, ob):
+                    c[1] = {"k": "str"} if c[0] == "application/json" else c[1]
+                    n_excl[0] += 1
+        for r in op["responses"]:
+            if r[1] is not None and r[1][1] is not None and r[1][1].get("k") in ("object", "enum", "array", "union"):
+                if not _claim(r[1][1], ob + "response" + str(r[0]), ob):
+                    r[1][1] = {"k": "str"}
+                    n_excl[0] += 1
     ir["title"] = draw(st.one_of(st.just("Verif API"), names.hostile_name().filter(_name_ok)))
     cfg = {"literal_enums": draw(st.booleans()), "docstrings_on_attributes": draw(st.booleans())}
     case = {"ir": ir, "cfg": cfg, "meta": draw(st.sampled_from(["none", "poetry", "pdm", "setup"]))}
